@@ -812,7 +812,7 @@ Outcome exec_conc(const ConcCase& c, bool keep_log, Stats* stats) {
     out.violations.push_back(v);
   };
   bool unjudged_deadlock = false;
-  if (sr.deadlock && c.factory_reenters >= 2) { unjudged_deadlock = true; out.poisoned = true; }   // nested load under a non-recursive load lock (see gen_conc)
+  if (sr.deadlock && c.factory_reenters >= 1) { unjudged_deadlock = true; out.poisoned = true; }   // nested load under a non-recursive load lock (see gen_conc)
   else if (sr.deadlock) { viol("deadlock", "all unfinished tasks blocked", sr.deadlock_info); out.poisoned = true; }
   if (sr.steps_exceeded) { viol("steps-exceeded", "step cap reached", ""); out.poisoned = true; }
 
